@@ -7,8 +7,9 @@ mirrors the Rust function of the same name of `sha512_chip.rs` and performs the 
 in the same order. The selectors are named by their role: `d11` is `q_13x4_12` (limb decomposition of
 the returned even/odd word), `dA` / `dE` / `dW` the three operand decompositions, `add` is
 `q_add_mod_2_64`. The output (`emit n`, rendered) is compared line by line with the recorded real
-synthesis of the SHA-512 chip. No soundness theorem is stated over this emitter yet: it makes the
-wiring (every copy constraint, selector and tag) part of the structural correspondence.
+synthesis of the SHA-512 chip (696 regions per block). The soundness theorems over this emitter and the
+gate polynomials dumped from the real `Sha512Chip::configure` (`Gen/C07Sha512Gates.lean`) are in
+`Proofs/C07/Chip512*.lean` (`sha512_ops_sound` … `sha512_digest_sound` in `Props/C07.lean`).
 -/
 namespace MidnightZK.C07.Chip512
 open MidnightZK.C07 MidnightZK.C07.Chip
